@@ -232,3 +232,62 @@ func epochsHookContainmentRules(c *rules.Ctx) {
 	c.HasCall(PC, "osmoutils.ApplyFuncIfNoError", []string{"ctx", "closure:epochstypes.panicCatchingEpochHook$1(hookFn,epochIdentifier,epochNumber)"}, true, "each subscriber call is wrapped by the cache-context helper", "")
 	c.ApplyFuncClosures("x/epochs/types", 1, "inside the wrapper the subscriber receives the wrapper's (cache) context, not a captured one")
 }
+
+// round-7 additions ------------------------------------------------------------------------------------------------
+
+// clOvershootBeforeTickRules (C03, C07): in both swap loops the tick is recomputed from the price only after the
+// overshoot test rejected the step — a price beyond the next initialised tick never sets the tick without crossing.
+func clOvershootBeforeTickRules(c *rules.Ctx) {
+	const K = "x/concentrated-liquidity.Keeper."
+	for _, l := range [][2]string{{"computeOutAmtGivenIn", "ComputeSwapWithinBucketOutGivenIn"}, {"computeInAmtGivenOut", "ComputeSwapWithinBucketInGivenOut"}} {
+		step := "swapstrategy.SwapStrategy." + l[1] + "(...)"
+		c.OnlyWhen(K+l[0], "clmath.CalculateSqrtPriceToTick", "not(cl.edgeCaseInequalityBasedOnSwapStrategy(swapstrategy.SwapStrategy.ZeroForOne(_), _, "+step+"#0))", "the tick is derived from the computed price only when that price did not overshoot the next initialised tick")
+		c.CallArg(K+l[0], "clmath.CalculateSqrtPriceToTick", 0, step+"#0", "…and from the step's computed price")
+	}
+	const PH = K + "PoolHasPosition"
+	c.BranchOn(PH, "osmomath.BigDec.IsZero(cltypes.ConcentratedPoolExtension.GetCurrentSqrtPrice(pool))", nil, "a pool counts as uninitialised by its price (zero sqrt price and tick 0), not by its active liquidity")
+	c.NoCall(PH, "cltypes.ConcentratedPoolExtension.GetLiquidity", "active liquidity (zero whenever the price is outside every range) does not decide whether positions exist")
+}
+
+// lockupForceUnlockRules (C06, C11): force-unlock removes the synthetic lock of any lock that has one — unlocking or not.
+func lockupForceUnlockRules(c *rules.Ctx) {
+	const F = "x/lockup/keeper.Keeper.ForceUnlock"
+	c.NotUnder(F, "lockupkeeper.Keeper.DeleteSyntheticLockup", "lockuptypes.PeriodLock.IsUnlocking(lock)", "the synthetic lock is deleted whether or not the underlying lock is already unlocking")
+	c.ReachedWhen(F, "lockupkeeper.Keeper.DeleteSyntheticLockup", "not(lockuptypes.SyntheticLock.IsNil(lockupkeeper.Keeper.GetSyntheticLockupByUnderlyingLockId(k,ctx,lock.ID)#0))", "every existing synthetic lock of the force-unlocked lock is deleted")
+	c.CallArg("x/lockup/keeper.accumulationKey", "binary.bigEndian.PutUint64", 2, "duration", "the accumulation key encodes the duration in nanoseconds (durations in the same second keep separate leaves)")
+}
+
+// poolModuleCacheRules (C19, C05; round 7): side conditions of the pool-module cache — a hit costs exactly the gas of
+// the read it replaces, the cache is filled only in finalize mode and invalidated whenever a route is (re)written, so
+// a pool id reused after a reverted creation is never routed to the previous module.
+func poolModuleCacheRules(c *rules.Ctx) {
+	const PM = "x/poolmanager.Keeper."
+	c.Let("CV", "assert:poolModuleCacheValue(sync.Map.Load(k.cachedPoolModules,poolId)#0)#0")
+	for _, fn := range []string{"GetPoolType", "GetPoolModule"} {
+		c.HasCall(PM+fn, "osmoutils.ChargeMockReadGas|poolmanager.Keeper.getPoolRouteRaw|osmoutils.TrackGasUsedInGet", nil, true, "every successful lookup either reads the route from the store or charges the recorded gas of that read (a node with a warm cache and one with a cold cache consume the same gas)", "gas")
+		c.CallArg(PM+fn, "osmoutils.ChargeMockReadGas", 1, "{CV}.gasFlat", "the gas charged on a hit is the recorded flat cost")
+		c.CallArg(PM+fn, "osmoutils.ChargeMockReadGas", 2, "{CV}.gasKey", "…the recorded key cost")
+		c.CallArg(PM+fn, "osmoutils.ChargeMockReadGas", 3, "{CV}.gasValue", "…and the recorded value cost")
+	}
+	c.CallArgN("osmoutils.ChargeMockReadGas", "storetypes.GasMeter.ConsumeGas", 1, "gasFlat | gasKey | gasVal", "the mock read charges the three recorded amounts unmodified (no second per-byte scaling)", 3, "")
+	for _, g := range []string{"gasFlat", "gasKey", "gasVal"} {
+		c.HasCall("osmoutils.ChargeMockReadGas", "storetypes.GasMeter.ConsumeGas", []string{"_", g}, true, "each recorded amount is charged", g)
+	}
+	c.Let("TRK", "osmoutils.TrackGasUsedInGet(sdk.Context.KVStore(ctx,k.storeKey),poolmanagertypes.FormatModuleRouteKey(poolId),_)")
+	c.StoreField(PM+"GetPoolModule", "gasFlat", "{TRK}#1", "the cache records the flat gas of the store read it replaces")
+	c.StoreField(PM+"GetPoolModule", "gasKey", "{TRK}#2", "…its key gas")
+	c.StoreField(PM+"GetPoolModule", "gasValue", "{TRK}#3", "…and its value gas")
+	c.OnlyWhen(PM+"GetPoolModule", "sync.Map.Store", "eq(sdk.Context.ExecMode(ctx),7)", "the cache is filled only while finalising a block")
+	c.HasCall(PM+"SetPoolRoute", "sync.Map.Delete", []string{"k.cachedPoolModules", "poolId"}, true, "rewriting a route invalidates its cache entry", "")
+	c.WhoMayCall("x/poolmanager/types.FormatModuleRouteKey", []string{"poolmanager.Keeper.getPoolRouteRaw", "poolmanager.Keeper.SetPoolRoute", "poolmanager.Keeper.GetPoolModule"}, "the route key is touched only by the cached reader, the raw reader and the invalidating writer")
+}
+
+// takerFeeArithmeticRules (C02, C05): the two taker-fee formulas.
+func takerFeeArithmeticRules(c *rules.Ctx) {
+	const PM = "x/poolmanager."
+	c.Returns(PM+"CalcTakerFeeExactIn", 1, "with:Amount(_, sdkmath.Int.Sub(tokenIn.Amount, sdkmath.LegacyDec.TruncateInt(_)))", "exact-in: fee = amount paid − amount after fee (exact difference)", "/fee")
+	c.Returns(PM+"CalcTakerFeeExactIn", 0, "with:Amount(_, sdkmath.LegacyDec.TruncateInt(sdkmath.LegacyDec.MulIntMut(sdkmath.LegacyDec.SubMut(sdkmath.LegacyOneDec(), takerFee), tokenIn.Amount)))", "exact-in: amount after fee = trunc((1 − fee) × amount)", "/after")
+	c.Returns(PM+"CalcTakerFeeExactOut", 1, "with:Amount(_, sdkmath.Int.Sub(sdkmath.LegacyDec.TruncateInt(sdkmath.LegacyDec.Ceil(_)), tokenIn.Amount))", "exact-out: fee = amount charged − pool amount (exact difference)", "/fee")
+	c.Returns(PM+"CalcTakerFeeExactOut", 0, "with:Amount(_, sdkmath.LegacyDec.TruncateInt(sdkmath.LegacyDec.Ceil(sdkmath.LegacyDec.Quo(sdkmath.Int.ToLegacyDec(tokenIn.Amount), sdkmath.LegacyDec.SubMut(sdkmath.LegacyOneDec(), takerFee)))))", "exact-out: amount charged = ceil(pool amount / (1 − fee))", "/after")
+	c.SameSubterm(PM+"CalcTakerFeeExactIn", "the fee is computed from the same after-fee amount that is returned")
+}
